@@ -57,10 +57,52 @@ def run(chk, repo: Repo):
     chk.rule("C04-R10", "a log-determinant read off a matrix diagonal (sum of logs of diag(M)) is used only where M is diagonal by the branch's own structural "
                         "test or is a Cholesky factor; for a general square root R (any R with R.T R = prec is documented as valid) it is not log det", floor=4)
     _r10(chk, repo)
+    _r3_scale_degree(chk, repo)
     chk.rule("C04-R11", "densities do not depend on the integer/float dtype of their parameters: no dtype-preserving constructor with a NaN/inf/fractional fill "
                         "and no np.reciprocal on unconverted parameters in the distribution modules", floor=15)
     from ..dtypelint import dtype_rule
     dtype_rule(chk, repo, "C04-R11", ("cuqi/distribution/",))
+
+
+INPUT_DEGREE = {"get_sqrtprec_from_cov": 2, "get_sqrtprec_from_sqrtcov": 1, "get_sqrtprec_from_prec": -2, "get_sqrtprec_from_sqrtprec": -1}
+
+
+def _r3_scale_degree(chk, repo):
+    """units: on every path of the four helpers the returned sqrtprec scales like 1/sigma and the returned prec like 1/sigma**2 (sa/scaledeg.py)"""
+    from fractions import Fraction
+    from .common import canon_fn
+    from ..pathtable import walk_paths
+    from ..pattern import norm as pn
+    from ..scaledeg import degree, MIXED
+    total = 0
+    for helper, d0 in INPUT_DEGREE.items():
+        hf = repo.func(f"{GA}:{helper}")
+        mat = func_params(hf)[1]
+        v = canon_fn(repo, None, hf, 2, rel=GA)
+        seen = {}
+        for kind, res in walk_paths(v, {}, pn, limit=512):
+            if kind != "return":
+                continue
+            env = getattr(res, "_env", {})
+            for name, want in (("sqrtprec", Fraction(-1)), ("prec", Fraction(-2))):
+                if name == mat:
+                    continue
+                e = env.get(name)
+                if not isinstance(e, ast.AST):
+                    continue
+                key = (name, pn(e))
+                if key in seen:
+                    continue
+                d = degree(e, {mat: Fraction(d0)})
+                seen[key] = d
+                if d is None:
+                    continue
+                total += 1
+                chk.add("C04-R3", f"{GA}:{helper}/units@{name}={pn(e)[:50]}", d == want, site(repo, hf), f"{name} scales like sigma**{want}",
+                        f"`{name} = {pn(e)[:110]}` scales like sigma**{d} when the input ({mat}) is rescaled, not like sigma**{want}: a square root / reciprocal too many or "
+                        f"too few in this branch (the same law given in the other input forms is evaluated with the right units)", hf)
+    if total < 20:
+        raise AnchorError(f"scale-degree rule decided only {total} results of the Gaussian helpers, at least 20 expected")
 
 
 def _r10(chk, repo):
